@@ -4,7 +4,7 @@
    the real logger wrote under -tags binary_log.  The oracle tables carry the
    float conversions of the time / duration values that occur in the case,
    computed by the driver with Go's own float arithmetic. *)
-From Verif Require Import Base.Prelude Base.CborSpec Enc.CborEnc.
+From Verif Require Import Base.Prelude Base.CborSpec Enc.CborEnc Proofs.CborEncP.
 Open Scope N_scope.
 
 Inductive call :=
@@ -57,11 +57,13 @@ Definition run_call (tb : tables) (dst : list N) (c : call) : list N :=
   let fd := lookup_dur (snd tb) in
   match c with
   | KPrefix m n => appendCborTypePrefix dst m n
-  | KString s => cbor_AppendString dst s | KStrings l => cbor_AppendStrings dst l
+  (* the _fast forms are equal to cbor_AppendStrings / cbor_AppendBools for all
+     inputs (Proofs/CborEncP.v cbor_AppendStrings_fast_eq, cbor_AppendBools_fast_eq) *)
+  | KString s => cbor_AppendString dst s | KStrings l => cbor_AppendStrings_fast dst l
   | KStringer o => cbor_AppendStringer dst o | KStringers l => cbor_AppendStringers dst l
   | KBytes s => cbor_AppendBytes dst s | KHex s => cbor_AppendHex dst s
   | KJSON s => cbor_AppendEmbeddedJSON dst s | KCBOR s => cbor_AppendEmbeddedCBOR dst s
-  | KBool b => cbor_AppendBool dst b | KBools l => cbor_AppendBools dst l
+  | KBool b => cbor_AppendBool dst b | KBools l => cbor_AppendBools_fast dst l
   | KInt z => cbor_AppendInt dst z | KInt8 z => cbor_AppendInt8 dst z | KInt16 z => cbor_AppendInt16 dst z
   | KInt32 z => cbor_AppendInt32 dst z | KInt64 z => cbor_AppendInt64 dst z
   | KInts l => cbor_AppendInts dst l | KInts8 l => cbor_AppendInts8 dst l | KInts16 l => cbor_AppendInts16 dst l
